@@ -151,6 +151,18 @@ func genVRHistory(r *Rand, sc *Scenario, withMutations bool) {
 		sc.Tasks = [][]Op{ops}
 		return
 	}
+	if r.Chance(1, 25) {
+		// a run of 2-5 homogeneous arrays through ONE entry point of the one reader (what a typed fast
+		// path that is switched on by an earlier result would see): intact ones and damaged ones mixed
+		entry := []string{"VR.ReadArray", "VR.ReadArray", "VR.ReadValue"}[r.Intn(3)]
+		var ops []Op
+		for i, n := 0, r.Range(2, 5); i < n; i++ {
+			sc.Docs = append(sc.Docs, docOf(withTrailer(r, genHomogeneousArray(r)), "homogeneous-array"))
+			ops = append(ops, Op{Kind: entry, Doc: len(sc.Docs) - 1, B: 2 * r.Intn(2), Tape: genPoolTape(r, 4)})
+		}
+		sc.Tasks = [][]Op{ops}
+		return
+	}
 	nops := []int{1, 2, 3, 4, 6, 10}[r.Intn(6)]
 	faultFree := r.Chance(1, 6)
 	var ops []Op
